@@ -2,3 +2,5 @@
 import NemoVerif.Py.Val
 import NemoVerif.Theorems.C04
 import NemoVerif.Drive.C04
+import NemoVerif.Theorems.C09
+import NemoVerif.Drive.C09
